@@ -184,6 +184,9 @@ impl StateMachine<'_> {
             self.config,
         )?;
         self.painter.merge_conflict_lines.clear();
+        // The commit names belong to this conflict region only: the next one may have no
+        // ancestor (or no names at all).
+        self.painter.merge_conflict_commit_names = MergeConflictCommitNames::new();
         self.state = HunkZero(Combined(merge_parents.clone(), InMergeConflict::No), None);
         Ok(())
     }
